@@ -10,5 +10,8 @@ INVARIANT PredictionIsALabel
 INVARIANT TableIndexInRange
 INVARIANT PriorsSumToOne
 INVARIANT MeansGiveGrandMean
+\* (round 3 theorems: MC_Lda_disc_quick.cfg, MC_Lda_affine_quick.cfg; all of them at MaxN = 7 in the thorough tier)
+\* round 3: the exact discriminant is a difference of ONE score per class, some row is never beaten, mirror data tie exactly,
+\* renumbering moves labels not rows, confusion counts partition the objects
 \* GEN: Emit prints one replay case per distinct state (as an invariant it is evaluated exactly once per state)
 INVARIANT Emit
